@@ -2,3 +2,9 @@
 import NpsVerif.Props.C01
 import NpsVerif.Props.C02
 import NpsVerif.Props.C13
+import NpsVerif.Props.C03
+import NpsVerif.Props.C04
+import NpsVerif.Props.C05
+import NpsVerif.Props.C14
+import NpsVerif.Props.C15
+import NpsVerif.Props.C16
